@@ -258,6 +258,24 @@ def gen_merge_case(r, tier, nops=40):
     return {"m": m, "universe": [hx(k) for k in uni], "q": [hx(k) for k in q], "ranges": [[hx(lo), hx(hi)]], "ops": ops, "mode": "merge"}
 
 
+EX_KEYS = [b"", b"a", b"ab", b"b"]          # the empty key, a shared prefix, and a key above both
+
+
+def exhaustive_cases(length, ms=(2, 3)):
+    """small scope, exhaustively: EVERY sequence of exactly `length` operations from {Set k, Remove k : k in EX_KEYS} for every
+    fan-out in ms (shorter sequences are covered as prefixes: the driver observes after every operation).  The i-th operation
+    sets the value 2^i, so every subset of leaves has its own sum.  Increase/Decrease are Get+Set and add no path."""
+    import itertools
+    alpha = [("set", k) for k in EX_KEYS] + [("rm", k) for k in EX_KEYS]
+    uni = [hx(k) for k in EX_KEYS]
+    out = []
+    for m in ms:
+        for seq in itertools.product(alpha, repeat=length):
+            ops = [{"op": o, "k": hx(k), "v": str(2 ** i) if o == "set" else "0"} for i, (o, k) in enumerate(seq)]
+            out.append({"m": m, "universe": uni, "q": uni, "ranges": [["61", "62"]], "ops": ops, "mode": "exhaustive%d" % length})
+    return out
+
+
 # ---------------------------------------------------------------------------------------------
 # observation parsing
 # ---------------------------------------------------------------------------------------------
@@ -691,7 +709,8 @@ def run_cases(cases, model_ok, out, tag, stats=None):
             out.nontrivial.add(canon(c))
         pairs.append((c, r["digest"]))
     if model_ok:
-        per_file = max(1, min(12, len(pairs) // (2 * common.NPROC) + 1))
+        tiny = sum(len(c["ops"]) for c, _ in pairs) <= 8 * len(pairs)
+        per_file = max(1, min(400 if tiny else 12, len(pairs) // (2 * common.NPROC) + 1))
         items = coq_items(pairs, tag, per_file)
         res = common.coq_eval_many(items)
         for (name, _), (rc, o), fi in zip(items, res, range(0, len(pairs), per_file)):
@@ -775,6 +794,23 @@ def correspond(tier, seed, model_ok):
     wit = [w[2] for w in WITNESSES] + [w[1] for w in FIXED_WITNESSES]
     stats = {}
     run_cases(wit + corpus + cases, model_ok, out, "q", stats)
+    # exhaustive small scope: all Set/Remove sequences over 4 keys, m in {2,3}; model + oracle up to ex_model ops,
+    # oracle only (no Coq evaluation) for ex_oracle ops
+    ex_model, ex_oracle = (3, 0) if tier == "quick" else (5, 6)
+    ex_model = int(os.environ.get("VERIF_C16_EX") or ex_model)
+    ex = exhaustive_cases(ex_model)
+    run_cases(ex, model_ok, out, "x", stats)
+    n_ex_oracle = 0
+    if ex_oracle:
+        o2 = Outcome()
+        ex6 = exhaustive_cases(ex_oracle)
+        run_cases(ex6, False, o2, "x6", stats)
+        n_ex_oracle = len(ex6)
+        out.evaluations += o2.evaluations
+        out.nontrivial |= o2.nontrivial
+        out.oracle_violations += o2.oracle_violations
+    out.notes.append("exhaustive small scope (all sequences of Set/Remove over keys '', a, ab, b; m in {2,3}): %d histories of %d ops against model and oracle%s"
+                     % (len(ex), ex_model, ("; %d histories of %d ops against the oracle only" % (n_ex_oracle, ex_oracle)) if ex_oracle else ""))
     # the witnesses must reproduce their finding on the implementation
     binary = _binary()
     wobs = common.run_driver(binary, wit)
@@ -809,6 +845,7 @@ def correspond(tier, seed, model_ok):
                 "shared prefixes, always the empty key, nil and empty slices), fan-out from %s, insertion orders monotone/reverse/outside-in/inside-out/random, "
                 "removal runs of consecutive keys; after NewTree and after every op: Get of every key of the universe, SplitAcc / SubsetAccumulation / PrefixSum "
                 "over all (pairs of) 3-6 query keys incl. nil ends, TotalAccumulatedValue, full forward+reverse and two ranged iterations, raw store dump; "
+                "plus, exhaustively, every Set/Remove sequence of 3 (quick) / 5 with model, 6 oracle-only (thorough) operations over 4 keys for m in {2,3}; "
                 "non-trivial = the history ended without a panicking mutation and built at least 3 levels (some node split); distinct = distinct case JSON" % (nops, MS))
     out.samples = [{"m": c["m"], "mode": c["mode"], "universe": c["universe"][:8], "q": c["q"], "ops": c["ops"][:6]} for c in cases[:3]]
     kinds, ms, modes = {}, {}, {}
